@@ -14,6 +14,7 @@ import (
 	"fmt"
 	"os"
 	"reflect"
+	"sync"
 
 	"github.com/mattn/anko/ast"
 	"github.com/mattn/anko/ast/astutil"
@@ -105,8 +106,13 @@ func (e *enum) collect(v reflect.Value, parent int) {
 
 var errInjected = errors.New("injected by the callback")
 
+// a second program, walked from inside the callback of another walk (walks must not share state)
+var libStmt, _ = parser.ParseSrc("f()(1)\ng.h(2)(3, 4)\nfunc(a) { return a }(5)\nm = {\"k\": [1, 2]}")
+var nestedWalk bool
+
 func walk(stmt ast.Stmt, e *enum, failat int) (visits []int, errc, msg string) {
 	n := 0
+	nested := nestedWalk
 	defer func() {
 		if r := recover(); r != nil {
 			errc, msg = "panic", fmt.Sprint(r)
@@ -121,6 +127,9 @@ func walk(stmt ast.Stmt, e *enum, failat int) (visits []int, errc, msg string) {
 			}
 		}
 		visits = append(visits, id)
+		if nested {
+			astutil.Walk(libStmt, func(interface{}) error { return nil })
+		}
 		if n == failat {
 			return errInjected
 		}
@@ -152,6 +161,7 @@ func main() {
 	enc := json.NewEncoder(w)
 	sc := bufio.NewScanner(f)
 	sc.Buffer(make([]byte, 1<<20), 1<<26)
+	nwalks := 0
 	for sc.Scan() {
 		var s Src
 		if err := json.Unmarshal(sc.Bytes(), &s); err != nil {
@@ -173,6 +183,37 @@ func main() {
 			full = []int{}
 		}
 		enc.Encode(Walk{ID: s.ID, Par: e.par, Kinds: e.kinds, Visits: full, FailAt: 0, Err: errc, ErrMsg: msg})
+		// the same walk with another walk running inside every callback, and several walks of the tree at once: each presents what a walk alone presents
+		nestedWalk = true
+		nv, nerrc, nmsg := walk(stmt, e, 0)
+		nestedWalk = false
+		if nv == nil {
+			nv = []int{}
+		}
+		enc.Encode(Walk{ID: s.ID + "|nested", Par: e.par, Kinds: e.kinds, Visits: nv, FailAt: 0, Err: nerrc, ErrMsg: nmsg})
+		nwalks++
+		if nwalks%7 == 0 {
+			type res struct {
+				v         []int
+				errc, msg string
+			}
+			rs := make([]res, 4)
+			var wg sync.WaitGroup
+			for g := range rs {
+				wg.Add(1)
+				go func(g int) {
+					defer wg.Done()
+					rs[g].v, rs[g].errc, rs[g].msg = walk(stmt, e, 0)
+				}(g)
+			}
+			wg.Wait()
+			for g, r := range rs {
+				if r.v == nil {
+					r.v = []int{}
+				}
+				enc.Encode(Walk{ID: fmt.Sprintf("%s|conc%d", s.ID, g), Par: e.par, Kinds: e.kinds, Visits: r.v, FailAt: 0, Err: r.errc, ErrMsg: r.msg})
+			}
+		}
 		seen := map[int]bool{}
 		for _, k := range []int{1, (len(full) + 1) / 2, len(full)} {
 			if k < 1 || k > len(full) || seen[k] {
